@@ -42,40 +42,32 @@ CASE_TIMEOUT_S = 180
 
 MODES = ['marked', 'internal', 'functions', 'elemental', 'stmtfunc', 'constants', 'composed', 'composed']
 
-# hazard slices: idx % 16 -> (hazard flag, mode).  The other residues run without any hazard.
-HAZARD_SLICES = {
-    1: ('callee_return', 'marked'),
-    3: ('dummy_name_capture', 'marked'),
-    5: ('expr_actual_modified', 'marked'),
-    7: ('absent_optional_ref', 'marked'),
-    9: ('fun_in_while', 'functions'),
-    11: ('kind_selected', 'constants'),
-    13: ('autoarr_two_sizes', 'marked'),
-    15: ('fun_in_elseif', 'functions'),
-}
-HAZARD_SLICES2 = {   # idx % 32 (second half of some residues) -> further hazards
-    17: ('fun_return', 'functions'),
-    19: ('neg_const', 'constants'),
-    21: ('assumed_shape_lb', 'marked'),
-    23: ('fun_array_arg', 'elemental'),
-    25: ('fun_in_inline_if', 'elemental'),
-    27: ('all_functions_with_intrinsics', 'functions'),   # plan-level hazard: inline_functions(routine) without a function list
-}
+# hazard slice: every 4th case carries exactly one hazard (a feature with a known defect mechanism), cycling
+# through this list; the other 75 % of the cases run without any hazard.
+HAZ = [
+    ('callee_return', 'marked'), ('dummy_name_capture', 'marked'), ('expr_actual_modified', 'marked'),
+    ('absent_optional_ref', 'marked'), ('fun_in_while', 'functions'), ('kind_selected', 'constants'),
+    ('autoarr_two_sizes', 'marked'), ('fun_in_elseif', 'functions'), ('fun_return', 'functions'),
+    ('neg_const', 'constants'), ('assumed_shape_lb', 'marked'), ('fun_array_arg', 'elemental'),
+    ('fun_in_inline_if', 'elemental'), ('all_functions_with_intrinsics', 'functions'),
+    ('fun_keyword_arg', 'functions'), ('const_chain', 'constants'), ('assoc_param', 'constants'),
+    ('absent_optional_fun', 'functions'), ('callee_return', 'internal'), ('dummy_name_capture', 'functions'),
+    ('nested_same_fun', 'internal'), ('deadcode_simplify', 'composed'),
+]
 
 
 def plan(idx, rng):
     """mode, generator flags and transformation options of case ``idx``"""
     hazard = None
-    r32 = idx % 32
-    if r32 in HAZARD_SLICES2:
-        hazard, mode = HAZARD_SLICES2[r32]
-    elif idx % 16 in HAZARD_SLICES and r32 < 16:
-        hazard, mode = HAZARD_SLICES[idx % 16]
+    if idx % 4 == 3:
+        hazard, mode = HAZ[(idx // 4) % len(HAZ)]
     else:
-        mode = MODES[(idx // 2) % len(MODES)]
+        mode = MODES[(idx - (idx + 1) // 4) % len(MODES)]
     f = {h: False for h in HAZARDS}
     if hazard in HAZARDS:
         f[hazard] = True
+    if hazard == 'absent_optional_fun':
+        f['optional_absent'] = True
     opts = {}
     f.update(subs=False, funs=False, elemental=False, internals=False, stmtfuncs=False, constants=False,
              pragma=False, split_files=False, import_in_routine=rng.random() < 0.4)
@@ -88,7 +80,7 @@ def plan(idx, rng):
         f.update(funs=True, elemental=rng.random() < 0.5, subs=rng.random() < 0.3)
         opts = {'callees_first': rng.random() < 0.5, 'explicit_list': hazard != 'all_functions_with_intrinsics'}
     elif mode == 'elemental':
-        f.update(elemental=True, funs=rng.random() < 0.3)
+        f.update(elemental=True, funs=hazard is None and rng.random() < 0.3)
     elif mode == 'stmtfunc':
         f.update(stmtfuncs=True, funs=rng.random() < 0.3)
     elif mode == 'constants':
@@ -101,10 +93,23 @@ def plan(idx, rng):
                 'inline_stmt_funcs': rng.random() < 0.5, 'inline_internals': rng.random() < 0.5,
                 'inline_marked': rng.random() < 0.7, 'remove_dead_code': rng.random() < 0.6,
                 'adjust_imports': rng.random() < 0.7, 'external_only': rng.random() < 0.6}
+        if hazard == 'deadcode_simplify':
+            opts['remove_dead_code'] = True
         f['optional_absent'] = opts['remove_dead_code']
+        # dead-code removal rewrites every IF/SELECT condition with loki.expression.simplify (defects: see C08);
+        # outside the hazard slice the conditions are plain comparisons that simplify leaves alone
+        f['simple_conditions'] = opts['remove_dead_code'] and hazard != 'deadcode_simplify'
+        if not (opts['inline_marked'] or opts['inline_elementals']):
+            opts[rng.choice(['inline_marked', 'inline_elementals'])] = True
+    f['must_call'] = {'marked': ['hsub'], 'internal': ['isub', 'ifun'], 'functions': ['hfun'], 'elemental': ['hele'],
+                      'stmtfunc': ['sf1', 'sf2'], 'constants': [],
+                      'composed': ['hsub', 'hele', 'isub', 'sf2']}[mode]
+    if hazard == 'assoc_param':
+        f['associate'] = True
+        opts['external_only'] = False
     f['max_stmts'] = rng.choice([5, 7, 9])
     f['call_density'] = rng.choice([0.25, 0.35, 0.5])
-    f['associate'] = rng.random() < 0.5
+    f.setdefault('associate', rng.random() < 0.5)
     return mode, hazard, f, opts
 
 
@@ -243,7 +248,7 @@ def classify(mode, hazard, symptom, detail, case, new_text, exc=None):
         return 'inline:actual-mentions-name-of-callee-dummy'
     if hazard == 'expr_actual_modified' and symptom == 'differ':
         return 'inline:expression-actual-re-evaluated-after-callee-modified-operand'
-    if hazard == 'absent_optional_ref' and symptom == 'compile':
+    if hazard == 'absent_optional_ref' and symptom in ('compile', 'exception'):
         return 'inline:absent-optional-dummy-left-in-inlined-body'
     if hazard == 'fun_in_while' and symptom == 'differ':
         return 'inline:function-in-DO-WHILE-condition-evaluated-once'
@@ -261,6 +266,18 @@ def classify(mode, hazard, symptom, detail, case, new_text, exc=None):
         return 'inline:function-in-inline-IF-statement'
     if hazard == 'all_functions_with_intrinsics' and symptom == 'exception' and isinstance(exc, AssertionError):
         return 'inline:inline_functions-asserts-on-intrinsic-call'
+    if hazard == 'fun_keyword_arg' and symptom == 'exception' and isinstance(exc, ValueError):
+        return 'inline:actual-contains-function-reference-with-keyword-argument'
+    if hazard == 'const_chain' and symptom in ('compile', 'differ'):
+        return 'constants:initialiser-referring-to-other-parameter'
+    if hazard == 'assoc_param' and symptom in ('compile', 'reparse'):
+        return 'constants:associate-name-of-parameter-selector-replaced'
+    if hazard == 'absent_optional_fun' and symptom in ('compile', 'exception'):
+        return 'inline:absent-optional-dummy-left-in-inlined-body'
+    if hazard == 'nested_same_fun' and symptom in ('compile', 'exception'):
+        return 'inline:nested-reference-to-same-function-left-behind'
+    if hazard == 'deadcode_simplify':
+        return 'inline:remove_dead_code:simplify-rewrites-or-rejects-condition'
     if hazard == 'fun_array_arg' and symptom in ('differ', 'compile', 'exception'):
         return 'inline:elemental-function-with-array-argument'
     if symptom == 'exception':
@@ -322,7 +339,9 @@ def run_case(idx, rng, tier, ctx):
         res['counters']['calls_before'] = c0
         res['counters']['calls_inlined'] = max(c0 - c1, 0)
         res['counters']['param_refs_inlined'] = max(p0 - p1, 0)
-        changed = (c1 < c0) or (p1 < p0)
+        markers = len(re.findall(r'\[Loki\] inlined child', kern_text(new_text)))
+        res['counters']['inline_markers'] = markers
+        changed = (c1 < c0) or (p1 < p0) or markers > 0
         orig_files = case.files if mode == 'composed' else [('k.F90', case.units)]
         d = diffexec.differential(wd / 'x', orig_files, new_files, ('drv.F90', case.driver), stdins=case.stdins)
         res['counters']['program_runs'] = d['runs'] * 2
